@@ -27,7 +27,15 @@ CHECKS = {
     ),
 }
 
-PENDING = {k: "claimed in DESIGN.md; check not built yet at this commit, so not claimed here" for k in ['C01','C05','C06','C07','C08','C12','C14','C17','C19']}
+CHECKS["C19"] = dict(
+    level="fault_enumeration",
+    text="The user callable is a simulator-owned object with a per-cell fault plan. For every swept shape, both setters, attached and free patterns, a failure (Exception, BaseException, in-place mutation of the working copy followed by a raise) is injected at EVERY cell index / yield index, plus before-first / after-last / subset / duplicate-yield generator plans; seeded histories of 1-6 successive edits (each in a pristine forked process) on top. Oracle: a harness-maintained cell model (contents, raw_data, dimensions) and ownership of every note (note.pattern identity, note.project, note.mod resolution).",
+    note="Trusted: the cell model (a 2-D array of 5-tuples); callables fail only by raising at a cell boundary; shapes above 128 cells sample the crash index (first, second, third, 1/3, 1/2, last two).",
+    technique="deterministic simulation with fault injection: crash-point enumeration of the caller-supplied callable + seeded edit histories against a cell model",
+    ref="DESIGN.md §5/C19",
+)
+
+PENDING = {k: "claimed in DESIGN.md; check not built yet at this commit, so not claimed here" for k in ['C01','C05','C06','C07','C08','C12','C14','C17']}
 
 
 def main():
